@@ -80,7 +80,11 @@ def run(ctx):
         if k % 3 == 0 and pb > 60:
             grid = np.unique(np.concatenate([np.arange(15, int(2.5 * pb) + 1, max(1, int(pb) // 60)), [int(pb), int(pb) + 1]]))
             for arr in (grid.astype(np.int64), grid.astype(np.int32), grid.astype(np.float32), np.repeat(grid.astype(np.int64), 2)[::2]):
-                rsi_in = [rsi, int(round(rsi)), np.int64(round(rsi))][k // 3 % 3]   # the GOR as float, Python int, numpy int
+                # the GOR as float, Python int, numpy int - and, for float32 pressures, as a NumPy double / 0-d array (an element of a
+                # DataFrame column): a double that float32 cannot hold exactly must not change which branch an entry takes
+                rsi_in = [rsi, int(round(rsi)), np.int64(round(rsi))][k // 3 % 3]
+                if arr.dtype == np.float32:
+                    rsi_in = [np.float64(rsi), np.array(rsi), rsi][k // 3 % 3]
                 inp_a = dict(**inp, dtype=str(arr.dtype), Rsi_passed_as=type(rsi_in).__name__, n=len(arr), first=int(arr[0]), last=int(arr[-1]))
                 pb_a = float(oil.pressure_bubblepoint_Standing(T, api, gg, rsi_in))
                 ga = np.asarray(oil.solution_gor_Standing(T, arr, api, gg, rsi_in))
@@ -104,6 +108,15 @@ def run(ctx):
                 sb = ba[pa <= pb_a]
                 if len(sb) > 1 and np.any(np.diff(sb) <= 0 if ga.dtype == np.float64 else np.diff(sb) < -eps):
                     bad("oil FVF does not rise with pressure up to the bubble point (array argument)", inp_a, float(np.diff(sb).min()))
+                ua = ba[pa > pb_a * (1 + 1e-6)]
+                if len(ua) > 1 and np.any(np.diff(ua) >= 0 if ga.dtype == np.float64 else np.diff(ua) > eps):
+                    bad("oil FVF does not fall with pressure above the bubble point (array argument)", inp_a, float(np.diff(ua).max()))
+                pick = np.unique(np.concatenate([[0, len(arr) - 1], np.nonzero(ab)[0][:3], np.nonzero(ab)[0][-2:], np.nonzero(be)[0][-2:]])).astype(int)
+                bs = np.array([float(oil.b_o_Standing(T, float(pa[j_]), api, gg, float(rsi_in))) for j_ in pick])
+                if not np.allclose(np.asarray(ba, float)[pick], bs, rtol=max(1e-12, 8 * eps), atol=0):
+                    j_ = int(pick[np.argmax(np.abs(np.asarray(ba, float)[pick] / bs - 1))])
+                    bad("oil FVF of a pressure array differs from the scalar value at the same pressure (array argument, GOR passed as " + type(rsi_in).__name__ + ")", dict(**inp_a, p=float(pa[j_])),
+                        dict(array_value=float(ba[j_]), scalar_value=float(oil.b_o_Standing(T, float(pa[j_]), api, gg, float(rsi_in)))))
                 # the same pressures listed in another order (a depletion history runs from high to low pressure): every entry keeps its value
                 for how, perm in (("descending", np.arange(len(arr))[::-1]), ("shuffled", rng.permutation(len(arr)))):
                     arr_p = arr[perm].copy()
